@@ -1371,6 +1371,8 @@ def c15_programs(tier, sd):
         [[lit(1), n], [lit(2), F("m")], [["rng", lit(30), lit(40)], 1]],                     # weights given by non-random fields
         [[lit(0), 1], [lit(255), 1]],
         [[["rng", lit(250), lit(255)], 3], [lit(3), 1], [lit(3), 0]],                         # the same value listed with weight 0 as well
+        # weights given by expressions over non-random fields that change between the calls on one object
+        [[lit(1), ["*", n, F("m")]], [["rng", lit(20), lit(25)], ["+", n, lit(0)]], [lit(2), F("m")], [lit(77), 1]],
     ]
     others = [[], [E(["<", a, b])], [E([">", a, lit(3)])], [E(["!=", a, lit(1)]), E(["!=", a, lit(100)])],
               [["if", [[["<", b, lit(128)], [E(["<", a, lit(50)])]]], [E([">=", a, lit(2)])]]], [E(["==", ["+", a, b], ["ulit", 12, 8]])]]
